@@ -137,6 +137,9 @@ pub struct EnvConfig {
     pub faults: Vec<FaultKind>,
     /// deliver exactly this many server bytes, then make the fault visible (crash-point sweep)
     pub crash_after_inbound: Option<(usize, FaultKind)>,
+    /// the crash becomes visible together with the last byte before it (same read pass, no
+    /// would-block in between) instead of as a separate event
+    pub crash_with_last_byte: bool,
     /// fail the client's n-th write call (0-based)
     pub fail_write_call: Option<usize>,
     /// allow virtual time to advance at quiescence
@@ -167,6 +170,7 @@ impl Default for EnvConfig {
             stall_on_seal: false,
             faults: vec![],
             crash_after_inbound: None,
+            crash_with_last_byte: false,
             fail_write_call: None,
             time: true,
             horizon_ns: 3_600_000_000_000,
@@ -569,6 +573,14 @@ impl St {
                     self.tr.readable.push_back(b);
                 }
                 self.tr.inbound_delivered += k;
+                if self.cfg.crash_with_last_byte && k > 0 && !self.tr.crash_done {
+                    if let Some((off, kind)) = self.cfg.crash_after_inbound.clone() {
+                        if self.tr.inbound_delivered >= off {
+                            self.apply_env(EnvAction::Fault(kind));
+                            return;
+                        }
+                    }
+                }
                 self.raise();
             }
             EnvAction::Eof => {
@@ -859,6 +871,12 @@ impl World {
         let mut st = self.lock();
         st.tr.capacity = None;
         st.raise();
+    }
+
+    /// (the I/O thread has ended or never existed, the transport object has been dropped), now
+    pub fn released(&self) -> (bool, bool) {
+        let st = self.lock();
+        (!st.io_exists() || st.io_gone(), st.tr.dropped || !st.io_exists())
     }
 
     pub fn hold_io(&self, held: bool) {
